@@ -361,8 +361,12 @@ Fixpoint last_pic (l : list est_item) (p : option SR.Model.Pipeline.str) : optio
 Fixpoint count_pic (l : list est_item) : nat :=
   match l with [] => O | EPicture _ :: r => S (count_pic r) | EUsage _ :: r => count_pic r end.
 
-(* ... is the entry's own USAGE and PICTURE: no usage word or PIC inside a data name or a VALUE literal, the reserved words
-   PIC / PICTURE / USAGE / IS and the usage word in upper case (the decoder's pattern is case-sensitive) *)
+(* ... is the entry's own USAGE and PICTURE: no usage word or PIC inside a VALUE literal, the reserved words PIC / PICTURE /
+   USAGE / IS and the usage word in upper case (the decoder's pattern is case-sensitive).  The DATA NAME is no part of this any
+   more: since the repair of estruct.clause_pattern (word boundaries; the fixed entry of finding K-name-contains-usage) a usage
+   word or PIC inside a data name is not matched, and Props/C04e.v C04e_domain_is_about_clauses proves that reparse_agrees of a
+   printed entry does not depend on its name at all.  With the pattern as it was (Model/Pipeline.v est_bounds_old) the same
+   definition excluded EMP-COMPANY, WS-COMP-DATE, TOT-BINARY-CT ... (C04e_name_with_usage_word_old_refuted). *)
 Definition reparse_agrees (e : centry) : bool :=
   let items := est_items ([ce_d1 e; ce_d2 e; 32] ++ compact (ce_body e)) in
   (count_pic items <=? 1)%nat && (last_usage items usage_DISPLAY =? usage_number (spec_info e))
